@@ -43,6 +43,16 @@ func (sm *seatManager) RandomAssignSeats(playerIDs []string) error {
 		return err
 	}
 
+	// check duplicate players
+	occupiedSeatIDs := sm.getOccupiedPlayerSeatIDs()
+	newPlayerIDs := make(map[string]bool)
+	for _, playerID := range playerIDs {
+		if _, exist := occupiedSeatIDs[playerID]; exist || newPlayerIDs[playerID] {
+			return ErrDuplicatePlayers
+		}
+		newPlayerIDs[playerID] = true
+	}
+
 	verifHook(sm, "random.validated")
 	for i := 0; i < len(playerIDs); i++ {
 		playerID := playerIDs[i]
@@ -84,6 +94,11 @@ func (sm *seatManager) AssignSeats(playerSeatIDs map[string]int) error {
 			return ErrDuplicatePlayers
 		}
 		playerIDs[playerID] = true
+
+		// check seat range
+		if seatID < 0 || seatID >= sm.MaxSeat {
+			return ErrUnavailableSeat
+		}
 
 		// check seats
 		if _, exist := seats[seatID]; exist {
